@@ -11,6 +11,7 @@ import (
 	"fmt"
 	"os"
 	"path"
+	"reflect"
 	"sort"
 	"strconv"
 	"strings"
@@ -43,6 +44,9 @@ type storeSpec struct {
 	ID     uint64 `json:"id"`
 	State  string `json:"state"`  // up offline down disconnected busy tombstone evicted reject absent
 	Labels []int  `json:"labels"` // value per location label, 0 = label missing
+	// the TiKV release the store reports ("" = none, as mock stores): the CLUSTER version (= oldest store, what the
+	// joint-consensus feature gate reads) is set separately - during a rolling upgrade the two differ
+	Version string `json:"version,omitempty"`
 }
 
 type peerSpec struct {
@@ -238,6 +242,9 @@ func buildWorld(c *caseIn) *world {
 			labels["noleader"] = "yes"
 		}
 		tc.AddLabelsStore(s.ID, 1, labels)
+		if s.Version != "" {
+			tc.PutStore(tc.GetStore(s.ID).Clone(core.SetStoreVersion("verif", s.Version)))
+		}
 		switch s.State {
 		case "offline":
 			tc.SetStoreOffline(s.ID)
@@ -345,6 +352,34 @@ func applyOps(b *operator.Builder, ops []opSpec) *operator.Builder {
 
 // runBuilder calls the real code the way `via` says. The Ops of the case are the call sequence the
 // helper performs (checked against create_operator.go by the translator's helper table).
+// callHelper calls a Create*Operator helper. If the helper (in the tree under test) accepts builder options - a variadic
+// ...operator.BuilderOption at the end, which no helper that changes peers has in the unchanged tree - and the region is in
+// a joint state, the option an admin end point would pass for such a region (SkipOriginJointStateCheck) is handed over:
+// whatever comes out is judged like any other plan.
+func callHelper(region *core.RegionInfo, fn interface{}, args ...interface{}) (*operator.Operator, error) {
+	fv := reflect.ValueOf(fn)
+	ft := fv.Type()
+	in := make([]reflect.Value, len(args))
+	for i, a := range args {
+		if a == nil {
+			in[i] = reflect.Zero(ft.In(i))
+		} else {
+			in[i] = reflect.ValueOf(a).Convert(ft.In(i))
+		}
+	}
+	optT := reflect.TypeOf(operator.BuilderOption(nil))
+	if ft.IsVariadic() && ft.In(ft.NumIn()-1).Elem() == optT && core.IsInJointState(region.GetPeers()...) {
+		in = append(in, reflect.ValueOf(operator.BuilderOption(operator.SkipOriginJointStateCheck)))
+	}
+	out := fv.Call(in)
+	var err error
+	if e, ok := out[1].Interface().(error); ok {
+		err = e
+	}
+	op, _ := out[0].Interface().(*operator.Operator)
+	return op, err
+}
+
 func runBuilder(w *world, c *caseIn) (*operator.Operator, error) {
 	tc, region := w.tc, w.region
 	arg := func(k string) opSpec {
@@ -361,26 +396,26 @@ func runBuilder(w *world, c *caseIn) (*operator.Operator, error) {
 	case "api-skip":
 		return applyOps(operator.NewBuilder("verif", tc, region, operator.SkipOriginJointStateCheck), c.Ops).Build(0)
 	case "AddPeer":
-		return operator.CreateAddPeerOperator("verif", tc, region, arg("add").Peer.meta(), 0)
+		return callHelper(region, operator.CreateAddPeerOperator, "verif", tc, region, arg("add").Peer.meta(), operator.OpKind(0))
 	case "PromoteLearner":
-		return operator.CreatePromoteLearnerOperator("verif", tc, region, &metapb.Peer{StoreId: arg("promote").Store})
+		return callHelper(region, operator.CreatePromoteLearnerOperator, "verif", tc, region, &metapb.Peer{StoreId: arg("promote").Store})
 	case "RemovePeer":
-		return operator.CreateRemovePeerOperator("verif", tc, 0, region, arg("remove").Store)
+		return callHelper(region, operator.CreateRemovePeerOperator, "verif", tc, operator.OpKind(0), region, arg("remove").Store)
 	case "TransferLeader":
 		return operator.CreateTransferLeaderOperator("verif", tc, region, region.GetLeader().GetStoreId(), arg("leader").Store, 0)
 	case "ForceTransferLeader":
 		return operator.CreateForceTransferLeaderOperator("verif", tc, region, region.GetLeader().GetStoreId(), arg("leader").Store, 0)
 	case "MoveRegion":
-		return operator.CreateMoveRegionOperator("verif", tc, region, 0, rolesMapOf(arg("roles").Roles))
+		return callHelper(region, operator.CreateMoveRegionOperator, "verif", tc, region, operator.OpKind(0), rolesMapOf(arg("roles").Roles))
 	case "MovePeer":
-		return operator.CreateMovePeerOperator("verif", tc, region, 0, arg("remove").Store, arg("add").Peer.meta())
+		return callHelper(region, operator.CreateMovePeerOperator, "verif", tc, region, operator.OpKind(0), arg("remove").Store, arg("add").Peer.meta())
 	case "ReplaceLeaderPeer":
-		return operator.CreateReplaceLeaderPeerOperator("verif", tc, region, 0, arg("remove").Store, arg("add").Peer.meta(),
+		return callHelper(region, operator.CreateReplaceLeaderPeerOperator, "verif", tc, region, operator.OpKind(0), arg("remove").Store, arg("add").Peer.meta(),
 			&metapb.Peer{StoreId: arg("leader").Store})
 	case "MoveLeader":
-		return operator.CreateMoveLeaderOperator("verif", tc, region, 0, arg("remove").Store, arg("add").Peer.meta())
+		return callHelper(region, operator.CreateMoveLeaderOperator, "verif", tc, region, operator.OpKind(0), arg("remove").Store, arg("add").Peer.meta())
 	case "Scatter":
-		return operator.CreateScatterRegionOperator("verif", tc, region, peersMapOf(arg("peers").Peers), arg("leader").Store)
+		return callHelper(region, operator.CreateScatterRegionOperator, "verif", tc, region, peersMapOf(arg("peers").Peers), arg("leader").Store)
 	case "MergeMatch":
 		// target region = the requested peers; CreateMergeRegionOperator makes the source match it first
 		tm := &metapb.Region{Id: 2, StartKey: []byte("b"), EndKey: []byte("c"), RegionEpoch: &metapb.RegionEpoch{ConfVer: 1, Version: 1}}
@@ -791,6 +826,17 @@ func genStores(r *rng.R, n int, allUp bool, loc int) []storeSpec {
 		}
 		ss[i] = storeSpec{ID: uint64(i + 1), State: st, Labels: lb}
 	}
+	// rolling upgrade: the stores report their own release, whatever the cluster version still is
+	switch r.Pick(40, 35, 25) {
+	case 1:
+		for i := range ss {
+			ss[i].Version = "5.0.0"
+		}
+	case 2:
+		for i := range ss {
+			ss[i].Version = []string{"4.0.9", "5.0.0", "5.1.0"}[r.Pick(30, 50, 20)]
+		}
+	}
 	return ss
 }
 
@@ -912,7 +958,7 @@ func genRandom(r *rng.R, n int) *caseIn {
 		c.JointSupported, c.JointEnabled = false, r.Bool()
 	}
 	via := r.Pick(33, 22, 39, 4, 2)
-	jointOrigin := via == 3 || via == 4 || (via == 2 && r.Pct(6))
+	jointOrigin := via == 3 || via == 4 || (via == 2 && r.Pct(10))
 	c.Origin, c.Leader = genOrigin(r, n, jointOrigin)
 	// a region cannot have a peer on a store PD does not know: "absent" is only for stores without origin peer
 	for _, p := range c.Origin {
